@@ -9,7 +9,7 @@ R08.3 encoder and decoder keep the same bit accounting: identical updates of
       nbits_total and rng in the normalise loops and in ec_{enc,dec}_bits, the
       same uint split, and the same initial (rng, nbits_total).
 """
-from .. import sx, cfg as cfgm, guards, templates as T, absint
+from .. import sx, cfg as cfgm, guards, templates as T, absint, decide
 from ..guards import I
 from ..pts import PointsTo
 from ..compdb import AnalysisBroken
@@ -541,6 +541,30 @@ def r08_8(rep, prog):
                              [T.show_atom(a) for a in facts][:4], key='patch-initial-bits-pending-ff')
     if not n:
         rep.unresolved('R08.8', '%s: no store to val in ec_enc_patch_initial_bits' % prog.config)
+    # conservation of pending bytes: rem == -1 means "no byte held"; a store that fills rem while rem may be negative takes
+    # the byte out of the run of pending 0xFF bytes, so the run must shrink by one on the same path (else one byte too
+    # many is emitted).  Path feasibility under rem = -1, ext = 1, offs = 0.
+    krem = kext = koffs = None
+    for x in f.all_nodes():
+        if sx.kind(x) == 'field' and x[3] == 'rem':
+            krem = sx.key(x)
+        if sx.kind(x) == 'field' and x[3] == 'ext':
+            kext = sx.key(x)
+        if sx.kind(x) == 'field' and x[3] == 'offs':
+            koffs = sx.key(x)
+    if krem and kext and koffs:
+        feas = decide.feasible_blocks(cf, {krem: -1, kext: 1, koffs: 0}, entry=True)
+        fills = [(b, i, x) for b, i, x in cf.find(lambda x: x[0] == 'assign' and sx.key(sx.strip_paren(x[1])) == krem) if b in feas]
+        shr = {b for b, i, x in cf.find(lambda x: (x[0] == 'inc' and x[1] == '--' and sx.key(sx.strip_paren(x[3])) == kext) or
+                                        (x[0] == 'cassign' and x[1] == '-' and sx.key(sx.strip_paren(x[2])) == kext)) if b in feas}
+        inst = '%s:ec_enc_patch_initial_bits takes the first byte out of the pending 0xFF run when it starts holding it' % prog.config
+        if not fills:
+            rep.unresolved('R08.8', inst + ': no store to rem is feasible with rem == -1, ext == 1, offs == 0')
+        for b, i, x in fills:
+            ok = b in shr or any(cf.dominates(b, sb) or cf.dominates(sb, b) for sb in shr)
+            (rep.holds if ok else rep.violated)('R08.8', inst, '%s:%s' % (f.file, sx.line(x)),
+                                                'ext is decremented on the same path' if ok else 'with rem == -1 and ext == 1 the byte is copied into rem but the run keeps its length: the stream gets one 0xFF byte too many and the decoder desynchronises',
+                                                **({} if ok else {'key': 'patch-initial-bits-run-length'}))
 
 
 # ------------------------------------------------------------------ R08.9
